@@ -113,6 +113,8 @@ def gen_cases(seed, tier):
                       "seed": int(rng.integers(0, 2 ** 31))})
         if len(cases) % 8 == 6 and "polyhedron" not in geo.spec_ops(spec):
             cases[-1]["nbig"] = [1100, 1500, 2500, 5000][(len(cases) // 8) % 4]      # one large call instead of 60 rows
+            if dom["k"] > 1:
+                cases[-1]["nbig"] = min(cases[-1]["nbig"], 1500)                     # n * k rows: keeps the case inside its time budget
     return cases
 
 
